@@ -109,7 +109,9 @@ func (d *dumpStruct) loopHandleKV(s reflect.StructField, tv reflect.Value, isNee
 		d.buf.Write(strconv.AppendInt(d.numBytes[:0], tv.Int(), 10))
 	case reflect.Uint, reflect.Uint8, reflect.Uint16, reflect.Uint32, reflect.Uint64, reflect.Uintptr:
 		d.buf.Write(strconv.AppendUint(d.numBytes[:0], tv.Uint(), 10))
-	case reflect.Float32, reflect.Float64:
+	case reflect.Float32:
+		d.buf.Write(strconv.AppendFloat(d.numBytes[:0], tv.Float(), 'f', -1, 32))
+	case reflect.Float64:
 		d.buf.Write(strconv.AppendFloat(d.numBytes[:0], tv.Float(), 'f', -1, 64))
 	case reflect.Ptr, reflect.Struct, reflect.Interface:
 		d.HandleDumpStruct(tv)
